@@ -11,6 +11,7 @@ COQ = os.path.join(VERIF, "coq")
 TARGET = os.path.join(CACHE, "target")
 OCAML = os.path.join(CACHE, "ocaml")
 NPROC = 16
+SHARD_MIN = [50]    # minimal number of cases per shard (live, slow cases use 1)
 ENV = dict(os.environ, CARGO_NET_OFFLINE="true", CARGO_TARGET_DIR=TARGET)
 
 TRUSTED_BASE = [
@@ -94,7 +95,7 @@ def run_sharded(cmd, lines, timeout=1800, shards=NPROC):
     n = len(lines)
     if n == 0:
         return []
-    shards = max(1, min(shards, (n + 49) // 50))
+    shards = max(1, min(shards, (n + SHARD_MIN[0] - 1) // SHARD_MIN[0]))
     size = (n + shards - 1) // shards
     parts = [lines[i:i + size] for i in range(0, n, size)]
     with ThreadPoolExecutor(max_workers=len(parts)) as ex:
